@@ -334,6 +334,7 @@ def c03(c):
         solve_stream(c)
         radau_stream(c)
         radaunum_stream(c)
+        bdfnum_stream(c)
         generic_monitor(c, "interval_check", ["interval-check", c.seed, 250 if c.tier == "quick" else 5000], "iv")
         generic_monitor(c, "protocol_check", ["protocol-check", c.seed, 120 if c.tier == "quick" else 3000], "pr")
     only_keys(c, ("c03",))
@@ -353,6 +354,7 @@ def c04(c):
         solve_stream(c)
         radau_stream(c)
         radaunum_stream(c)
+        bdfnum_stream(c)
         generic_monitor(c, "hostile_check", ["hostile-check", c.seed, 60 if c.tier == "quick" else 1500], "hs", timeout=3000)
         generic_monitor(c, "interval_check", ["interval-check", c.seed, 120 if c.tier == "quick" else 2000], "iv")
     only_keys(c, ("c04",))
@@ -371,6 +373,7 @@ def c11(c):
         solve_stream(c)
         radau_stream(c)
         radaunum_stream(c)
+        bdfnum_stream(c)
         generic_monitor(c, "protocol_check", ["protocol-check", c.seed, 200 if c.tier == "quick" else 4000], "pr")
         generic_monitor(c, "options_check", ["options-check", c.seed, 60 if c.tier == "quick" else 1500], "op")
     only_keys(c, ("c11",))
@@ -445,6 +448,7 @@ def c19(c):
         solve_stream(c)
         radau_stream(c)
         radaunum_stream(c)
+        bdfnum_stream(c)
         generic_monitor(c, "protocol_check", ["protocol-check", c.seed, 250 if c.tier == "quick" else 5000], "pr")
     only_keys(c, ("c19",))
     c.partial = ["'unchanged state is a no-op' and 'doubling doubles everything' are monitored (protocol-check), not proved; open findings: BDF restart, Radau Newton start",
